@@ -392,16 +392,19 @@ impl Ctx {
             assert!(shipped != signed_over, "edit {edit} must change the content");
         }
         let mut sigs: Vec<Signature> = vec![];
+        // positions of signatures whose corruption is made in the TEXT (their hex string gets one more digit)
+        let mut odd_hex: Vec<usize> = vec![];
         for s in d["sigs"].as_array().unwrap() {
             let by = s["by"].as_str().unwrap();
             let mb = Metablock::new(signed_over.clone(), &[self.km.sk(by)]).unwrap();
             let mut v = mb.signatures[0].value().as_bytes().to_vec();
             if !s["ok"].as_bool().unwrap() {
                 // the forms an invalid signature takes, in turn: one bit flipped; empty; last byte missing;
-                // all zero; one byte too long
+                // all zero; one byte too long; the genuine value with one hexadecimal digit appended to its text
                 let form = self.bad_forms.get();
                 self.bad_forms.set(form + 1);
-                match form % 5 {
+                match form % 6 {
+                    5 => odd_hex.push(sigs.len()),
                     0 => {
                         let i = v.len() / 3;
                         v[i] ^= 0x10;
@@ -432,6 +435,11 @@ impl Ctx {
             if fmt != "Z" {
                 let inst = instant_of(d["expires"].as_i64().unwrap());
                 val["signed"]["expires"] = json!(spell_instant(inst, fmt));
+            }
+        }
+        for &i in &odd_hex {
+            if let Some(t) = val["signatures"][i]["sig"].as_str().map(|t| format!("{t}7")) {
+                val["signatures"][i]["sig"] = json!(t);
             }
         }
         // "match_in_empty": the edit is made in the TEXT - the first MATCH rule without a source clause gets one
